@@ -342,15 +342,15 @@ theorem lex_phinv_H (hx : HLaws env.ops inp Pend Good) : PhInv env inp GErr (HLe
 /-! ### `Parser.parse` -/
 
 /-- the parser invariant: in tag-scanner mode no tag hint is outstanding -/
-def HP (Pend : κ → Bool) (Good : κ → Prop) (p : Parser κ) : Prop :=
+def HMode (Pend : κ → Bool) (Good : κ → Prop) (p : Parser κ) : Prop :=
   Good p.x.sink ∧ (p.directive = .scan → Pend p.x.sink = false)
 
 variable {P : PLabels}
 
 theorem parseLoop_H (hx : HLaws env.ops inp Pend Good) (hph : PhaseOk env.tbl P = true) (last : Bool) (n : Nat)
-    (p : Parser κ) (h : HP Pend Good p) :
+    (p : Parser κ) (h : HMode Pend Good p) :
     (∀ e, (Parser.parseLoop env inp last n p).2 = .error e → ¬ GErr e) ∧
-    (∀ k, (Parser.parseLoop env inp last n p).2 = .ok k → HP Pend Good (Parser.parseLoop env inp last n p).1) := by
+    (∀ k, (Parser.parseLoop env inp last n p).2 = .ok k → HMode Pend Good (Parser.parseLoop env inp last n p).1) := by
   induction n generalizing p with
   | zero =>
     simp only [Parser.parseLoop]
@@ -372,7 +372,7 @@ theorem parseLoop_H (hx : HLaws env.ops inp Pend Good) (hph : PhaseOk env.tbl P 
         obtain ⟨c, s, x, hr⟩ := scanner_destruct _ hscan
         rw [hr] at hg' hp' ⊢
         refine ⟨fun e he => (by cases he), fun k hk => ?_⟩
-        simp only [HP, Parser.store, hd]
+        simp only [HMode, Parser.store, hd]
         exact ⟨hg', fun _ => hp'⟩
       · rename_i d bm hres
         rw [hres] at h2
@@ -381,7 +381,7 @@ theorem parseLoop_H (hx : HLaws env.ops inp Pend Good) (hph : PhaseOk env.tbl P 
         obtain ⟨c, s, x, hr⟩ := scanner_destruct _ hscan
         rw [hr] at hg' ⊢
         apply ih
-        simp only [HP, loadBookmark, Parser.store]
+        simp only [HMode, loadBookmark, Parser.store]
         exact ⟨hg', fun hh => by cases hh⟩
       · exact ⟨fun e he => by simp only [Except.error.injEq] at he; subst he; simp [GErr], fun k hk => by cases hk⟩
       · rename_i e hne hres
@@ -401,7 +401,7 @@ theorem parseLoop_H (hx : HLaws env.ops inp Pend Good) (hph : PhaseOk env.tbl P 
         obtain ⟨c, l, x, hr, hg'⟩ := h2
         rw [hr]
         refine ⟨fun e he => (by cases he), fun k hk => ?_⟩
-        simp only [HP, Parser.store, hd]
+        simp only [HMode, Parser.store, hd]
         exact ⟨hg', fun hh => by cases hh⟩
       · rename_i d bm hres
         rw [hres] at h2
@@ -409,7 +409,7 @@ theorem parseLoop_H (hx : HLaws env.ops inp Pend Good) (hph : PhaseOk env.tbl P 
         subst hds
         rw [hr]
         apply ih
-        simp only [HP, loadBookmark, Parser.store]
+        simp only [HMode, loadBookmark, Parser.store]
         exact ⟨hg', fun _ => hp'⟩
       · exact ⟨fun e he => by simp only [Except.error.injEq] at he; subst he; simp [GErr], fun k hk => by cases hk⟩
       · rename_i e hne hres
@@ -418,9 +418,9 @@ theorem parseLoop_H (hx : HLaws env.ops inp Pend Good) (hph : PhaseOk env.tbl P 
 
 /-- **`Parser::parse`** over a sink with `HLaws`: no `.panic guardSite`, and the invariant again -/
 theorem parse_H (hx : HLaws env.ops inp Pend Good) (hph : PhaseOk env.tbl P = true) (last : Bool)
-    (p : Parser κ) (h : HP Pend Good p) :
+    (p : Parser κ) (h : HMode Pend Good p) :
     (∀ e, (Parser.parse env inp last p).2 = .error e → ¬ GErr e) ∧
-    (∀ k, (Parser.parse env inp last p).2 = .ok k → HP Pend Good (Parser.parse env inp last p).1) :=
+    (∀ k, (Parser.parse env inp last p).2 = .ok k → HMode Pend Good (Parser.parse env inp last p).1) :=
   parseLoop_H hx hph last _ p h
 
 end
